@@ -24,6 +24,8 @@ type Module struct {
 	Cases []*CaseRun
 	// Asserts: also write the API assertion files (C01).
 	Asserts bool
+	// ModuleBuildErr is set when the module failed to build for reasons outside any case.
+	ModuleBuildErr string
 	// GenTimeout is the watchdog of one CLI run.
 	GenTimeout time.Duration
 }
@@ -63,9 +65,12 @@ func NewModule(e *Env, name string) (*Module, error) {
 			return err
 		}
 		if strings.HasPrefix(p, "errs/") {
-			// the wrapErrorsUsing recorder lives at vcase/errs
+			// the wrapErrorsUsing recorder lives at vcase/errs (and stays below vref for the embed directive)
 			os.MkdirAll(filepath.Join(dir, "errs"), 0o755)
-			return os.WriteFile(filepath.Join(dir, p), b, 0o644)
+			os.MkdirAll(filepath.Join(dir, "vref", "errs"), 0o755)
+			if err := os.WriteFile(filepath.Join(dir, p), b, 0o644); err != nil {
+				return err
+			}
 		}
 		return os.WriteFile(filepath.Join(dir, "vref", p), b, 0o644)
 	})
@@ -256,12 +261,21 @@ func (m *Module) Build(race bool) {
 		if len(bad) == 0 {
 			bad["*"] = string(out)
 		}
+		// a failure in the shared harness packages is a failure of the whole module
+		for _, shared := range []string{"vref", "errs", "zzbatch"} {
+			if t, ok := bad[shared]; ok {
+				bad["*"] = "harness package " + shared + " does not build: " + t
+			}
+		}
 	}
+	m.ModuleBuildErr = bad["*"]
 	for _, cr := range m.Cases {
 		if !cr.Generated {
 			continue
 		}
-		if t, ok := bad[cr.Case.Name]; ok {
+		if t, ok := bad["*"]; ok && t != "" {
+			cr.BuildErr = "module build failed: " + t
+		} else if t, ok := bad[cr.Case.Name]; ok {
 			cr.BuildErr = t
 		} else if t, ok := bad["*"]; ok {
 			cr.BuildErr = "module build failed: " + t
